@@ -293,6 +293,7 @@ type verdict struct {
 	// evidence
 	FailKind string // kind of the first failing fragment ("" = none)
 	FailMsg  string
+	Excluded string
 	Judged   int    // number of prefixes judged
 	Inconcl  string
 }
@@ -344,6 +345,10 @@ func judge(c *Case, cache bcache) verdict {
 			return v
 		}
 		v.Judged++
+		if sig, _ := compare(c, i, a, b); sig == excludeRefusal {
+			v.Excluded = strings.TrimPrefix(sig, "EXCLUDE:")
+			return v
+		}
 		if sig, d := compare(c, i, a, b); sig != "" {
 			v.Sig = sig
 			c.Diff = d
@@ -395,11 +400,20 @@ func judge(c *Case, cache bcache) verdict {
 	return v
 }
 
+const excludeRefusal = "EXCLUDE:optimizer-refusal-timing(C01-liberty)"
+
 func compare(c *Case, i int, a, b snap) (sig, diff string) {
 	ra, rb := a.last(), b.last()
 	cls := c.Class
 	if cls == "" {
 		cls = "plain"
+	}
+	if (ra.Kind == "cerr" && ra.CKind == "optimizer") != (rb.Kind == "cerr" && rb.CKind == "optimizer") {
+		// The optimizer may refuse a script by reporting the run-time error of one of its constant
+		// sub-expressions at compile time (C01 allows that liberty); whether it gets to that
+		// sub-expression depends on its budget and on the statements before it, so the session and
+		// the batch run may legitimately disagree on compile-time vs run-time reporting.
+		return excludeRefusal, ""
 	}
 	if (ra.Kind == "cerr") != (rb.Kind == "cerr") {
 		return "eval:compile-error-only-in-one", fmt.Sprintf("fragment %d: session %s, batch %s", i+1, ra, rb)
@@ -814,6 +828,10 @@ func (ck *checker) runCase(c *Case, cache bcache, nontrivial bool) string {
 		}
 		return v.What
 	}
+	if v.Excluded != "" {
+		ck.rec.Exclude(v.Excluded)
+		return ""
+	}
 	if dumpFile != nil {
 		b, _ := json.Marshal(map[string]any{"c": c, "fail": v.FailKind, "judged": v.Judged, "msg": v.FailMsg})
 		dumpFile.Write(append(b, '\n'))
@@ -914,6 +932,7 @@ func TestCheck(t *testing.T) {
 		"function values compare as opaque <fn>; what they compute is observed by calling the zero-argument ones in the probe",
 		"a top-level return appears only as the last statement of the last fragment; param declarations are excluded (Eval passes the session's locals as arguments)",
 		"the value Eval returns for a fragment is compared only when the fragment ends in an expression statement or return (then also against the concatenation ending in `return <expr>` run through Compile+VM without Eval); for other last statements Eval returns whatever the last POP before the final RETURN left (e.g. `1` then `global g` as one script gives 1, as two fragments undefined) - treated as unspecified",
+		"when exactly one of the two sides is refused by the optimizer (compile-time report of a constant sub-expression's run-time error, a liberty C01 grants) the case is excluded from that fragment on: whether the optimizer reaches that sub-expression depends on its budget and on the statements before it",
 		"watchdog expiry and non-reproducible replays are inconclusive, never violations",
 	}
 	defer func() { rec.Flush(!t.Failed() || rec.HasUnknown()) }()
@@ -1025,6 +1044,8 @@ func runReplays(t *testing.T, ck *checker) {
 		switch {
 		case v.Inconcl != "":
 			ck.rec.Inconcl(v.Inconcl)
+		case v.Excluded != "":
+			ck.rec.Exclude(v.Excluded)
 		case v.Sig != "":
 			what := fmt.Sprintf("replay %s: %s", rf.Path, v.What)
 			if !ck.rec.Violation(v.Sig, what, &c) {
